@@ -383,6 +383,22 @@ func init() {
 		return "ok:" + hx([]byte(c20GetStr(c.RelayerConfig, a[0])))
 	}
 	// numstr <evm|sub|btc> <field> <hex text>  => ok:<decimal value loaded> | err   (the setting written as a JSON string)
+	// numval / numvalx / numvalk <evm|sub|btc> <field> <i|f> <decimal text, up to 3 decimals>  => ok:<value loaded> | err
+	// (the setting written as a JSON number; i = Go int, f = float64)
+	numval := func(a []string) string {
+		var v interface{}
+		if a[2] == "i" {
+			v = int(i64(a[3]))
+		} else {
+			x, err := strconv.ParseFloat(a[3], 64)
+			if err != nil {
+				panic("bad float " + a[3])
+			}
+			v = x
+		}
+		return c20NumVal(a[0], a[1], v)
+	}
+	ops["C20.numval"], ops["C20.numvalk"], ops["C20.numvalx"] = numval, numval, numval
 	ops["C20.numstr"] = func(a []string) string { return c20NumStr(a[0], a[1], string(unhx(a[2]))) }
 	ops["C20.dur"] = func(a []string) string {
 		st := map[string]string{}
@@ -553,7 +569,11 @@ var c20NumFields = map[string][]string{
 
 const c20BtcAddr = "1A1zP1eP5QGefi2DMPTfTL5SLmv7DivfNa"
 
-func c20NumStr(kind, field, val string) string {
+func c20NumStr(kind, field, val string) string { return c20NumVal(kind, field, val) }
+
+// c20NumVal loads a chain config of `kind` in which `field` is written as val (a string, a Go int or a float64) and
+// prints the loaded value of that field.
+func c20NumVal(kind, field string, val interface{}) string {
 	m := map[string]interface{}{"id": 1, "name": "c", "endpoint": "ws://e", "type": kind}
 	if field != "feeAmount" {
 		m[field] = val
@@ -566,10 +586,12 @@ func c20NumStr(kind, field, val string) string {
 			return "err"
 		}
 		switch field {
+		case "id":
+			return "ok:" + utoa(uint64(*c.GeneralChainConfig.Id))
 		case "maxGasPrice":
 			return "ok:" + c.MaxGasPrice.String()
 		case "gasMultiplier":
-			return "ok:" + c.GasMultiplier.Text('g', -1)
+			return "ok:" + c.GasMultiplier.Text('f', -1)
 		case "gasIncreasePercentage":
 			return "ok:" + c.GasIncreasePercentage.String()
 		case "gasLimit":
@@ -591,6 +613,8 @@ func c20NumStr(kind, field, val string) string {
 			return "err"
 		}
 		switch field {
+		case "id":
+			return "ok:" + utoa(uint64(*c.GeneralChainConfig.Id))
 		case "chainID":
 			return "ok:" + c.ChainID.String()
 		case "startBlock":
@@ -609,7 +633,7 @@ func c20NumStr(kind, field, val string) string {
 		if field == "feeAmount" {
 			m["resources"] = []interface{}{map[string]interface{}{
 				"address": c20BtcAddr, "resourceID": "0x0000000000000000000000000000000000000000000000000000000000000300",
-				"feeAmount": val, "tweak": "t", "script": "51",
+				"feeAmount": val.(string), "tweak": "t", "script": "51",
 			}}
 		}
 		c, err := btcConfig.NewBtcConfig(m)
@@ -617,6 +641,8 @@ func c20NumStr(kind, field, val string) string {
 			return "err"
 		}
 		switch field {
+		case "id":
+			return "ok:" + utoa(uint64(*c.GeneralChainConfig.Id))
 		case "feeAmount":
 			if len(c.Resources) != 1 {
 				return "ok:noresource"
@@ -1204,5 +1230,53 @@ func genC20(g *G) {
 	}
 	for i := 0; i < g.Count(100, 5000); i++ {
 		g.Emit("subnet", g.Pick([]string{"i", "f"}), itoa(g.Intn(65536)))
+	}
+	// --- numeric settings written as JSON numbers: integers of both representations strictly; fractional values into integer
+	// fields and domain ids above 255 as known findings (numvalk) with their excused twins (numvalx)
+	nf := map[string][]string{
+		"evm": {"id", "maxGasPrice", "gasMultiplier", "gasIncreasePercentage", "gasLimit", "transferGas", "startBlock", "blockConfirmations", "blockInterval", "blockRetryInterval"},
+		"sub": {"id", "chainID", "startBlock", "blockInterval", "blockRetryInterval", "tip"},
+		"btc": {"id", "startBlock", "blockInterval", "blockRetryInterval", "blockConfirmations"},
+	}
+	emitNum := func(k, f, r, t string) {
+		ip := t
+		if i := strings.Index(t, "."); i >= 0 {
+			ip = t[:i]
+		}
+		n, _ := strconv.ParseInt(ip, 10, 64)
+		frac := strings.Contains(t, ".")
+		if (frac && f != "gasMultiplier") || (f == "id" && n > 255) {
+			g.Emit("numvalk", k, f, r, t)
+			g.Emit("numvalx", k, f, r, t)
+			return
+		}
+		g.Emit("numval", k, f, r, t)
+	}
+	ints := []string{"0", "1", "2", "7", "127", "128", "254", "255", "256", "257", "300", "511", "512", "65535", "65536", "1000000007", "-1", "-2", "-256", "9007199254740992"}
+	fracs := []string{"0.5", "0.9", "0.999", "1.5", "1.999", "2.7", "2.001", "255.5", "256.5", "257.25", "-0.5", "-0.999", "-1.5", "-2.7", "1000000.125"}
+	for _, k := range []string{"evm", "sub", "btc"} {
+		for _, f := range nf[k] {
+			for _, t := range ints {
+				if f == "blockRetryInterval" && len(t) > 9 {
+					continue // seconds -> nanoseconds must fit (the wrap is the finding of `retrywrap`)
+				}
+				emitNum(k, f, "i", t)
+				emitNum(k, f, "f", t)
+			}
+			for _, t := range fracs {
+				emitNum(k, f, "f", t)
+			}
+		}
+	}
+	for i := 0; i < g.Count(300, 20000); i++ {
+		k := g.Pick([]string{"evm", "sub", "btc"})
+		f := g.Pick(nf[k])
+		t := strconv.FormatInt(int64(g.Intn(2000))-600, 10)
+		r := g.Pick([]string{"i", "f"})
+		if r == "f" && g.Intn(2) == 0 {
+			t = strings.TrimPrefix(t, "-") // keep "-0.x" out: the sign of a zero integer part is written explicitly below
+			t = g.Pick([]string{"", "-"}) + t + g.Pick([]string{".5", ".25", ".125", ".75", ".001", ".999"})
+		}
+		emitNum(k, f, r, t)
 	}
 }
